@@ -137,8 +137,10 @@ def gen_timer_scenario(rng, sid, seed=None):
             if crashed:
                 nd = crashed.pop()
                 lines.append("OP RECOVER %d" % nd)
+                # sometimes only a part of the node's processes is started again: the others must be gone
+                partial = rng.random() < 0.25
                 for p in range(nprocs):
-                    if placement[p] == nd:
+                    if placement[p] == nd and not (partial and rng.random() < 0.5):
                         lines.append("OP ADDPROC %d %d" % (p, nd))
             else:
                 nd = rng.randrange(nnodes)
@@ -282,8 +284,10 @@ def gen_scenario(rng, sid, feat=None, nops=None, seed=None):
                 nd = rng.choice(sorted(crashed))
                 crashed.discard(nd)
                 lines.append("OP RECOVER %d" % nd)
+                # sometimes only a part of the node's processes is started again: the others must be gone
+                partial = rng.random() < 0.25
                 for p in range(nprocs):
-                    if placement[p] == nd:
+                    if placement[p] == nd and not (partial and rng.random() < 0.5):
                         lines.append("OP ADDPROC %d %d" % (p, nd))
             else:
                 nd = rng.randrange(nnodes)
